@@ -390,8 +390,10 @@ func runMuxConnectFails() (impl, pred string) {
 	return impl, "ok"
 }
 
-// runMuxReacceptAtOnce (C08): an id is accepted, dialled, served, its server shut down — and accepted again WITHOUT a
-// pause, several times over: every round's first call is answered by that round's listener and the main connection lives.
+// runMuxReacceptAtOnce (C08): an id is accepted, dialled and served; its listener is closed and the id is accepted again
+// WITHOUT a pause — and only then is the old gRPC server stopped, which closes the old listener a second time (a listener
+// can be closed more than once: by its user and by the server it was served by).  Every round's first call is answered by
+// that round's listener, and the main connection lives.
 func runMuxReacceptAtOnce(role string, rounds int) (impl, pred string) {
 	p, err := newGrpcPair(true)
 	if err != nil {
@@ -403,6 +405,7 @@ func runMuxReacceptAtOnce(role string, rounds int) (impl, pred string) {
 		acceptor, dialler = p.host, p.plug
 	}
 	okRounds := 0
+	var prevSrv *grpc.Server
 	for r := 0; r < rounds; r++ {
 		ln, err := acceptor.Accept(43)
 		if err != nil {
@@ -410,22 +413,24 @@ func runMuxReacceptAtOnce(role string, rounds int) (impl, pred string) {
 		}
 		srv := grpc.NewServer()
 		grpctest.RegisterPingPongServer(srv, &pingPong{id: 43})
-		done := make(chan struct{})
-		go func() { defer close(done); srv.Serve(ln) }()
-		ans, conn, err := pingKeep(dialler, 43, 6*time.Second)
+		go srv.Serve(ln)
+		if prevSrv != nil {
+			prevSrv.Stop() // the second close of the PREVIOUS round's listener, after this round's accept
+		}
+		time.Sleep(100 * time.Millisecond)
+		ans, conn, err := pingKeep(dialler, 43, 7*time.Second)
 		if conn != nil {
 			conn.Close()
 		}
-		srv.Stop()
-		ln.Close()
-		select {
-		case <-done:
-		case <-time.After(3 * time.Second):
-		}
+		ln.Close() // the first close of this round's listener
+		prevSrv = srv
 		if err != nil || ans != "43" {
 			break
 		}
 		okRounds++
+	}
+	if prevSrv != nil {
+		prevSrv.Stop()
 	}
 	mainOK := true
 	if err, hung, pp := withTimeout(5*time.Second, p.client.Ping); err != nil || hung || pp != nil {
